@@ -40,6 +40,7 @@ namespace fio {
 struct State {
     std::string path;            // the case file
     nix::File f;                 // the session (none when closed)
+    nix::File f2;                // a second File object on the same path in the same process (C09)
     Pool pool;
     std::string snap_full;       // reference full dump
     bool have_snap = false;
@@ -535,6 +536,8 @@ static std::string handle_inner(const std::vector<std::string> &t) {
     std::ostringstream o;
     if (c == "fs") {
         S.pool.clear();
+        if (S.f2) { try { S.f2.close(); } catch (...) { } }
+        S.f2 = nix::none;
         if (S.f) { try { S.f.close(); } catch (...) { } }
         S.f = nix::none;
         S.have_snap = false;
@@ -587,9 +590,39 @@ static std::string handle_inner(const std::vector<std::string> &t) {
         if (ok) crash_point(false, full, small);
         return std::string(ok ? "1" : "0") + " " + st;
     }
+    // ---- a second File object on the case path while the first is open
+    if (c == "open2") {
+        need_session();
+        if (S.f2) throw std::logic_error("bad script: open2 twice");
+        nix::File g = nix::File::open(S.path, parse_mode(t.at(1)), "hdf5", parse_comp(t.at(2)),
+                                      t.at(3) == "1" ? nix::OpenFlags::Force : nix::OpenFlags::None);
+        S.f2 = g;
+        o << "mode=" << mode_name(g.fileMode()) << " comp=" << comp_name(g.compression()) << " blocks=" << g.blockCount()
+          << " sections=" << g.sectionCount();
+        return o.str();
+    }
+    if (c == "mutin2" || c == "blk2" || c == "dump2" || c == "flush2" || c == "close2") {
+        need_session();
+        if (!S.f2) throw nix::UninitializedEntity();
+        if (c == "mutin2") {
+            const MutEntry *e = find_entry(mut_table(), t.at(1));
+            if (!e) return t.at(1) + " UNKNOWN";
+            return t.at(1) + " " + run_entry(*e, S.f2);
+        }
+        if (c == "blk2") { S.f2.createBlock(t.at(1), "t"); return "blk2"; }
+        if (c == "dump2") return small_dump(S.f2);
+        if (c == "flush2") return S.f2.flush() ? "1" : "0";
+        S.f2.close();
+        S.f2 = nix::none;
+        return "closed";
+    }
     if (c == "close") {
         need_session();
-        std::string full = full_dump(S.f), small = small_dump(S.f);
+        if (S.f2) throw std::logic_error("bad script: close while the second File is open");
+        std::string full, small;
+        // (after a second File object on the same path was closed, its close() has swept this File's groups too:
+        //  nothing can be read through it any more, but it can still be closed)
+        try { full = full_dump(S.f); small = small_dump(S.f); } catch (const std::exception &) { full = "unreadable"; small = "unreadable"; }
         S.f.close();
         S.f = nix::none;
         long objs = open_objects();
